@@ -295,8 +295,9 @@ def member_class_types(proj, cls, real='double'):
     return sorted(set(typ for nm, (typ, arr, mut) in ci.members.items() if re.match(r'^[A-Z]\w*$', typ)))
 
 
-def emit_struct(proj, cls, real='double', opaque_types=()):
-    """R11: struct for `this`, generated from the member declarations of the class header."""
+def emit_struct(proj, cls, real='double', opaque_types=(), own_cls=None):
+    """R11: struct for `this`, generated from the member declarations of the class header.
+    For a class other than the job's own, constants in array dimensions carry the class prefix (as emitted by R12)."""
     ci = proj.classinfo(cls, real)
     out = ['struct %s {' % cls]
     for nm, (typ, arr, mut) in ci.members.items():
@@ -308,6 +309,8 @@ def emit_struct(proj, cls, real='double', opaque_types=()):
         a = arr
         if a:
             a = re.sub(r'\b([A-Za-z_]\w*)::([A-Za-z_]\w*)', r'\1_\2', a)
+            if own_cls is not None and cls != own_cls:
+                a = re.sub(r'(?<![\w.])([A-Za-z_]\w*)\b', lambda m: (cls + '_' + m.group(1)) if m.group(1) in ci.consts else m.group(1), a)
         out.append('  %s %s%s;%s' % (ct, nm, a, ' /* mutable */' if mut else ''))
     out.append('};')
     return '\n'.join(out)
@@ -453,6 +456,15 @@ def extract_function(proj, fi, functable, real='double', srcrel=None, select=Non
                 b, n2 = re.subn(r'(?<![\w.>])' + nm + r'\s*\.\s*(\w+)\s*\(', typ + r'_\1(VERIF_OBJ(' + nm + '), ', b)
                 report.hit('R19c.member_object_method_call', n + n2)
         b = tr.rule_members(b, set(ci.members))
+    # R5b: a parameter of class type (const Class& g  ->  const struct Class *g):  g.f(args) -> Class::f(VERIF_OBJ(*g), args),  g.m -> g->m
+    for p in fi.params:
+        if p.kind in ('obj_in', 'obj_out') and 'struct ' in p.ctype:
+            typ = p.ctype.replace('const', '').replace('*', '').replace('struct', '').strip()
+            nm = p.name
+            b, n = re.subn(r'(?<![\w.>])' + nm + r'\s*\.\s*(\w+)\s*\(\s*\)', typ + r'_\1(VERIF_OBJ(*' + nm + '))', b)
+            b, n2 = re.subn(r'(?<![\w.>])' + nm + r'\s*\.\s*(\w+)\s*\(', typ + r'_\1(VERIF_OBJ(*' + nm + '), ', b)
+            b, n3 = re.subn(r'(?<![\w.>])' + nm + r'\s*\.\s*(?=\w)', nm + '->', b)
+            report.hit('R5b.object_param_use', n + n2 + n3)
     b = tr.rule_refs(b, [p.name for p in fi.params if p.kind == 'ref'])
     b = tr.rule_calls(b, ret, unqualified_cls=cls)
     b = tr.rule_propagate(b, ret)
